@@ -148,6 +148,29 @@ func (x *Exec) assume(st *State, f *Term) {
 	}
 	x.assumed[g] = true
 	x.unit.Assumes = append(x.unit.Assumes, g)
+	// equivalent re-parametrised versions of quantified facts (better triggers)
+	for _, a := range altsOf(f) {
+		ag := mkImp(st.pc, a)
+		if !x.assumed[ag] {
+			x.assumed[ag] = true
+			x.unit.Assumes = append(x.unit.Assumes, ag)
+		}
+	}
+}
+
+// altsOf: alternative versions of the quantified (positive) parts of f.
+func altsOf(f *Term) []*Term {
+	switch f.Op {
+	case OpForall:
+		return f.Alt
+	case OpImp:
+		var out []*Term
+		for _, a := range altsOf(f.Args[1]) {
+			out = append(out, mkImp(f.Args[0], a))
+		}
+		return out
+	}
+	return nil
 }
 
 // assert records an obligation and then assumes the goal.
